@@ -1405,6 +1405,12 @@ func (v *VMValue) SetSlice(ctx *Context, a, b, step IntType, val *VMValue) bool 
 	}
 
 	offset := len(arr2.List) - int(_b-_a)
+	if offset > 0 && len(arr.List)+offset > 512 {
+		// 与 + * 和范围一样: 不能通过一次分片赋值造出过长的数组，否则 a[0:0] = a 每次翻倍，
+		// 几十次循环就能在算力上限之内耗尽内存
+		ctx.Error = errors.New("不能一次性创建过长的数组")
+		return false
+	}
 	newArr := make([]*VMValue, len(arr.List)+offset)
 
 	for i := IntType(0); i < _a; i++ {
